@@ -46,7 +46,7 @@ def isnan_truth(st):
 
 def run(tier, seed):
     V = common.Verdict("C06", tier, seed)
-    configs = ["K17"] if tier == "quick" else ["K17", "K20"]
+    configs = ["K17", "K20"] if tier == "quick" else ["K17", "K20"]
     for cfg in configs:
         try:
             ctx = lib.Ctx(cfg, EXTRA)
